@@ -2,12 +2,32 @@
 (* C07 laws on recorded format/parse calls.  An event is one (pattern, culture, value):  *)
 (*   text = format(value), again = format(value) once more, the parse of text, and the    *)
 (*   re-format of the parsed value.  Fields are records of integers / strings.            *)
-EXTENDS Integers, Sequences, TLC, Json, IOUtils, PatternSemantics
+EXTENDS Integers, Sequences, TLC, Json, IOUtils, PatternFormat
 VARIABLES l
 Events == JsonDeserialize(IOEnv.TRACE_FILE)
 Has(e, f) == f \in DOMAIN e
 Rej(clause) == PrintT(<<"REJECT", clause, l>>)
 Check(cond, clause) == IF cond THEN TRUE ELSE Rej(clause)
+RefCheck(cond, clause) == IF cond THEN TRUE ELSE PrintT(<<"DIVERGE", clause, l>>)
+
+\* the text the reference formatter (PatternFormat.tla) gives: for generated patterns whose tokens it knows, in the event's culture
+\* (separators and designators are the culture's); a reference only - the property promises the laws below, not a particular text
+\* (':' stands for the culture's time separator in patterns of types with a time, '/' for its date separator in patterns of types with a
+\*  date; elsewhere they are the characters themselves)
+Cult(e) == [tsep |-> IF e.type \in {"LocalTime", "LocalDateTime", "Instant", "Offset", "Duration"} THEN e.time_sep ELSE <<58>>,
+            dsep |-> IF e.type \in {"LocalDate", "LocalDateTime", "Instant", "AnnualDate"} THEN e.date_sep ELSE <<47>>,
+            am |-> e.am, pm |-> e.pm]
+Predictable(e) ==
+  /\ Has(e, "exact_tokens") /\ e.exact_tokens /\ Has(e, "text") /\ Has(e, "am")
+  /\ CASE e.type = "Offset" -> Understood(e.tokens, OffsetFmtVocab)
+        [] e.type = "Duration" -> Understood(e.tokens, DurationFmtVocab) /\ e.parts.days < 2000000000
+        [] e.type \in {"LocalTime", "LocalDate", "LocalDateTime", "AnnualDate", "Instant"} -> Understood(e.tokens, FieldVocab)
+        [] OTHER -> FALSE
+RefText(e) ==
+  CASE e.type = "Offset" -> FormatOffset(e.tokens, 1, e.value.sec, Cult(e))
+    [] e.type = "Instant" -> FormatFields(e.tokens, 1, e.parts, Cult(e))
+    [] e.type = "Duration" -> FormatDuration(e.tokens, 1, e.parts, Cult(e))
+    [] OTHER -> FormatFields(e.tokens, 1, e.value, Cult(e))
 
 \* the culture renders ':' or '/' as text beginning with '.' or ',' and that separator follows an optional fraction: not delimited after all
 \* (in offset and duration patterns the negative-only sign "-" prints nothing for non-negative values: it separates nothing)
@@ -38,6 +58,7 @@ Applies(e) ==
 Step(e) ==
   /\ Check(~Has(e, "exc"), "format_and_parse_do_not_raise")
   /\ (Has(e, "again") => Check(e.again = e.text, "formatting_is_deterministic"))
+  /\ (Predictable(e) => RefCheck(e.text = RefText(e), "text_is_what_the_reference_formatter_gives"))
   \* (every pattern type rejects the empty string by design, so a pattern of optional fields only makes no
   \*  promise for the values it renders as nothing)
   /\ IF Has(e, "parsed_ok") /\ Len(e.text) > 0 /\ ~SepAmbiguous(e) /\ Applies(e)
